@@ -8,7 +8,7 @@
    IEEE binary64 is compared with the C/C++ on every run (basis matrices bitwise, stored index sets exactly, values
    within a measured rounding bound — CHOLMOD's summation order is unspecified). *)
 From Coq Require Import ZArith List Bool Lia QArith Qcanon.
-From PS Require Import Arith EvalModel BSpline C04_Proofs OFieldKit C01_Proofs GridModel C17_Index C17_Proofs.
+From PS Require Import Arith EvalModel BSpline C04_Proofs OFieldKit C01_Proofs GridModel C17_Index C17_Proofs C02_Proofs C17_Upper.
 Import ListNotations.
 Local Open Scope nat_scope.
 
@@ -103,6 +103,25 @@ Theorem C17_agrees_pointwise : forall g cs, grid_in g grids ->
   Forall2 (fun d x => side_of d x = true) (dims t) (grid_point grids g) ->
   nd_get a g = ndsplineeval t (grid_point grids g) cs 0.
 Proof. exact (grideval_agrees_pointwise F t grids s a Hwf HRM Hgne Hev). Qed.
+
+(* ... and AT AND ABOVE the upper end of full support too, in every dimension of order >= 1 whose knots are strictly
+   increasing (side_ok: x_d below knots_d[naxes_d], OR order_d >= 1 with strict knots): B-splines of order >= 1 are
+   continuous, so the right-continuous convention of splineutil's bspline and the left-continuous one of pointwise
+   evaluation give the same value (C17_Upper.Bfun_sides_agree). What remains excluded is only what the property itself
+   excludes or what is a known finding: order-0 dimensions at/above the upper end (the grid gives 0 at the last knot,
+   C17_last_knot_differs) and repeated knots there (finding D17 / C17:grideval:repeated-knot->NaN). *)
+Theorem C17_agrees_pointwise_upper : forall g cs, grid_in g grids ->
+  searchcenters t (grid_point grids g) = CFound cs ->
+  Forall2 side_ok (dims t) (grid_point grids g) ->
+  nd_get a g = ndsplineeval t (grid_point grids g) cs 0.
+Proof.
+  intros g cs Hg Hsc Hside.
+  destruct (grideval_inv t grids a Hev) as [Hne [Hlen _]].
+  rewrite (grideval_spec F t grids s a Hwf HRM Hgne Hev g Hg).
+  apply (grid_spec_pointwise_upper F); try assumption.
+  - unfold ndim_of, strides_of. apply (RM_last_stride _ _ HRM Hne).
+  - rewrite grid_point_length by exact Hg. exact Hlen.
+Qed.
 End C17_grid.
 
 (* the specification sum equals pointwise evaluation on the stated domain, independently of any grid *)
@@ -195,6 +214,7 @@ Print Assumptions C17_slicemultiply_is_mode_product.
 Print Assumptions C17_slicemultiply_shape.
 Print Assumptions C17_grideval_spec.
 Print Assumptions C17_agrees_pointwise.
+Print Assumptions C17_agrees_pointwise_upper.
 Print Assumptions C17_spec_is_pointwise.
 Print Assumptions C17_bspline_is_cox_de_boor.
 Print Assumptions C17_hypotheses_satisfiable.
